@@ -129,6 +129,10 @@ func (p *Prog) unitsForProperty(prop string) []string {
 
 // relevant reports whether a failed obligation counts against prop.
 func relevant(o *Obl, c *Contract, prop string) bool {
+	if o.RefinesKey != "" {
+		// links an interface contract this property's units rely on to its implementation
+		return true
+	}
 	if len(o.Labels) > 0 {
 		return hasPropLabel(o.Labels, prop)
 	}
@@ -235,10 +239,14 @@ type CheckResult struct {
 	Extra       map[string]interface{}
 	Lemmas      int
 	Statics     []string
+	RefUnits    []string            // units run only for their refinement obligations
+	RefNotes    map[string]bool     // what a refinement does not cover
+	Couplings   map[string]bool     // coupling definitions used
+	RefOf       map[string][]string // interface contract -> implementations declared to refine it
 }
 
 func (p *Prog) CheckProperty(prop, tier string, seed int) *CheckResult {
-	res := &CheckResult{prog: p, Prop: prop, Tier: tier, Seed: seed, Backends: map[string]int{}, Trusted: map[string]bool{}, Assumed: map[string]bool{}, Inlined: map[string]bool{}, Unspec: map[string]bool{}, Bounded: map[string]bool{}, NoInv: map[string]bool{}, OutOfSubset: map[string]bool{}, Skipped: map[string]bool{}, Stale: map[string]bool{}, Extra: map[string]interface{}{}}
+	res := &CheckResult{prog: p, Prop: prop, Tier: tier, Seed: seed, Backends: map[string]int{}, Trusted: map[string]bool{}, Assumed: map[string]bool{}, Inlined: map[string]bool{}, Unspec: map[string]bool{}, Bounded: map[string]bool{}, NoInv: map[string]bool{}, OutOfSubset: map[string]bool{}, Skipped: map[string]bool{}, Stale: map[string]bool{}, Extra: map[string]interface{}{}, RefNotes: map[string]bool{}, Couplings: map[string]bool{}, RefOf: map[string][]string{}}
 	units := p.unitsForProperty(prop)
 	res.Units = units
 	timeout := 10000
@@ -309,6 +317,85 @@ func (p *Prog) CheckProperty(prop, tier string, seed int) *CheckResult {
 		for _, o := range r.Obls {
 			unitOf[o] = c
 			obls = append(obls, o)
+		}
+	}
+	// refinement pass: an interface contract these units rely on is linked to
+	// the repository's implementation by the units declared `refines <key>`.
+	// Such a unit is run here as well (unless it is one of the property's own
+	// units); of its obligations only the refinement ones and the loop
+	// invariants they rest on are kept. Contracts those units rely on in turn
+	// are followed (a few rounds suffice).
+	ran := map[string]bool{}
+	for _, u := range units {
+		ran[u] = true
+	}
+	collect := func(e *Exec) {
+		for k := range e.refineNotes {
+			res.RefNotes[k] = true
+		}
+		for k := range e.couplingsUsed {
+			res.Couplings[k] = true
+		}
+	}
+	for k, c := range p.contracts.Funcs {
+		for _, r := range c.Refines {
+			res.RefOf[r] = append(res.RefOf[r], k)
+		}
+	}
+	for round := 0; round < 4; round++ {
+		var more []string
+		for k, c := range p.contracts.Funcs {
+			if ran[k] || len(c.Refines) == 0 || p.funcs[k] == nil {
+				continue
+			}
+			for _, r := range c.Refines {
+				if res.Assumed[r] {
+					more = append(more, k)
+					break
+				}
+			}
+		}
+		if len(more) == 0 {
+			break
+		}
+		sort.Strings(more)
+		for _, u := range more {
+			ran[u] = true
+			r := p.RunUnit(u)
+			if r.Missing {
+				continue
+			}
+			res.RefUnits = append(res.RefUnits, u)
+			c := p.contracts.Funcs[u]
+			if len(r.CErrs) > 0 {
+				res.Broken = fmt.Sprintf("contract-error in %s: %s", u, strings.Join(r.CErrs, "; "))
+			}
+			for k := range r.Exec.byContr {
+				res.Assumed[k] = true
+			}
+			for k := range r.Exec.intrUsed {
+				res.Trusted[k] = true
+			}
+			for k := range r.Exec.inlined {
+				res.Inlined[k] = true
+			}
+			for k := range r.Exec.unspec {
+				res.Unspec[k] = true
+			}
+			for k := range r.Exec.noInvLoops {
+				res.NoInv[k] = true
+			}
+			for _, o := range r.Obls {
+				if o.RefinesKey != "" || o.Kind == "invariant" {
+					unitOf[o] = c
+					obls = append(obls, o)
+				}
+			}
+		}
+	}
+	for _, o := range obls {
+		if o.Exec != nil {
+			collect(o.Exec)
 		}
 	}
 	// lemmas
@@ -566,6 +653,31 @@ func (p *Prog) CheckProperty(prop, tier string, seed int) *CheckResult {
 		res.Lines = append(res.Lines, line)
 		res.Lines = append(res.Lines, fmt.Sprintf("  failed obligation: %s (%s, %s) at %s", o.Name, o.Status, o.Backend, o.Where))
 	}
+	// outcome of the refinement obligations per interface contract
+	refTotal := map[string]int{}
+	refProved := map[string]int{}
+	refBy := map[string]map[string]bool{}
+	for _, o := range obls {
+		if o.RefinesKey == "" || o.Expect == "sat" {
+			continue
+		}
+		refTotal[o.RefinesKey]++
+		if o.Status == "proved" {
+			refProved[o.RefinesKey]++
+		}
+		if refBy[o.RefinesKey] == nil {
+			refBy[o.RefinesKey] = map[string]bool{}
+		}
+		refBy[o.RefinesKey][o.Unit] = true
+	}
+	res.Extra["refinement_obligations"] = refTotal
+	linked := map[string]string{}
+	for k, n := range refTotal {
+		if n > 0 && refProved[k] == n {
+			linked[k] = strings.Join(keys(refBy[k]), ", ")
+		}
+	}
+	res.Extra["__linked"] = linked
 	for _, k := range keys(res.Stale) {
 		res.Lines = append(res.Lines, "NOTE stale-contract: "+k)
 	}
@@ -622,7 +734,14 @@ func (r *CheckResult) writeEvidence() {
 				continue
 			}
 			if ct.IsIface {
-				assumptions = append(assumptions, "interface contract assumed for every implementation (linked to the repository's implementation by reading, see the comment at the contract): "+k)
+				linked, _ := r.Extra["__linked"].(map[string]string)
+				if by, ok := linked[k]; ok {
+					assumptions = append(assumptions, "interface contract used at call sites; its link to the repository's implementation is PROVED in this run (refinement obligations of "+by+" under the coupling definitions listed in coverage.couplings; clauses labelled assumed-* excepted): "+k)
+				} else if len(r.RefOf[k]) > 0 {
+					assumptions = append(assumptions, "interface contract assumed for every implementation (a refinement by "+strings.Join(r.RefOf[k], ", ")+" is declared but not fully discharged in this run): "+k)
+				} else {
+					assumptions = append(assumptions, "interface contract assumed for every implementation (linked to the repository's implementation by reading, see the comment at the contract): "+k)
+				}
 			}
 			if ct.Trusted != "" {
 				assumptions = append(assumptions, "trusted contract (body not verified): "+k+" -- "+ct.Trusted)
@@ -680,7 +799,13 @@ func (r *CheckResult) writeEvidence() {
 		"integers":                  "64/32/16/8-bit bit-vectors with Go wrap-around semantics",
 		"contract_files":            "comment-only //@ clauses in /repo/<pkg>/contracts_verif.go (build tag verif)",
 	}
+	cov["refinement_units"] = r.RefUnits
+	cov["couplings"] = keys(r.Couplings)
+	cov["refinement_notes"] = keys(r.RefNotes)
 	for k, v := range r.Extra {
+		if strings.HasPrefix(k, "__") {
+			continue
+		}
 		cov[k] = v
 	}
 	if len(r.Samples) == 0 {
